@@ -176,7 +176,7 @@ stat:
             $$.SetLastLine($3.LastLine())
         } |
         TLocal TFunction TIdent funcbody {
-            $$ = &ast.LocalAssignStmt{Names:[]string{$3.Str}, Exprs: []ast.Expr{$4}}
+            $$ = &ast.LocalAssignStmt{Names:[]string{$3.Str}, Exprs: []ast.Expr{$4}, IsLocalFunction: true}
             $$.SetLine($1.Pos.Line)
             $$.SetLastLine($4.LastLine())
         } | 
